@@ -3,6 +3,7 @@
 -/
 import OptreeModel.Model.Ops
 import OptreeModel.Lemmas.EncBroadcast
+import OptreeModel.Lemmas.PrefixOrder
 
 namespace Optree
 
@@ -106,45 +107,6 @@ theorem C09_broadcast_cases (a b : STree) (nil : Bool) (ns : String) :
 /-- a leaf is replaced by the whole other operand, on either side -/
 theorem C09_lub_leaf (b : STree) : STree.leaf.lub b = some b ∧ (∀ i cs, (STree.node i cs).lub .leaf = some (.node i cs)) :=
   ⟨rfl, fun _ _ => rfl⟩
-
-mutual
-/-- the prefix relation is reflexive on well-formed shapes -/
-theorem STree.prefixB_refl : ∀ a : STree, a.wf = true → a.prefixB a = true
-  | .leaf, _ => rfl
-  | .node i cs, h => by
-      obtain ⟨hnl, _, hdict, hw⟩ := STree.wf_node h
-      have hl := STree.prefixL_refl cs hw
-      simp only [STree.prefixB, beq_self_eq_true, Bool.true_and]
-      rcases Kind.cases_eq i.kind with hk | hk | hk | hk | hk | hk | hk | hk | hk | hk | hk
-      · simp only [hk, beq_self_eq_true, hl, Bool.and_true, Bool.true_and]; cases i.data.isSome <;> simp
-      · exact absurd hk hnl
-      · simp [hk, hl]
-      · simp [hk, hl]
-      · simp [hk, hl]
-      · obtain ⟨hkl, hnd⟩ := hdict (by simp [hk, Kind.isDict])
-        have hks : keySetEq i.keys i.keys = true := (keySetEq_iff _ _).mpr ⟨rfl, fun _ h => h⟩
-        simp only [hk, Kind.isDict, hks, Bool.true_and]
-        have := STree.prefixD_eq i.keys cs hkl i.keys cs hkl (fun _ h => h)
-        rw [this, pickD_self i.keys cs hkl hnd]; exact hl
-      · simp only [hk, beq_self_eq_true, hl, Bool.and_true, Bool.true_and]; cases i.data.isSome <;> simp
-      · obtain ⟨hkl, hnd⟩ := hdict (by simp [hk, Kind.isDict])
-        have hks : keySetEq i.keys i.keys = true := (keySetEq_iff _ _).mpr ⟨rfl, fun _ h => h⟩
-        simp only [hk, Kind.isDict, hks, Bool.true_and]
-        have := STree.prefixD_eq i.keys cs hkl i.keys cs hkl (fun _ h => h)
-        rw [this, pickD_self i.keys cs hkl hnd]; exact hl
-      · obtain ⟨hkl, hnd⟩ := hdict (by simp [hk, Kind.isDict])
-        have hks : keySetEq i.keys i.keys = true := (keySetEq_iff _ _).mpr ⟨rfl, fun _ h => h⟩
-        simp only [hk, Kind.isDict, hks, Bool.true_and]
-        have := STree.prefixD_eq i.keys cs hkl i.keys cs hkl (fun _ h => h)
-        rw [this, pickD_self i.keys cs hkl hnd]; exact hl
-      · simp [hk, hl]
-      · simp only [hk, beq_self_eq_true, hl, Bool.and_true, Bool.true_and]; cases i.data.isSome <;> simp
-theorem STree.prefixL_refl : ∀ cs : List STree, STree.wfL cs = true → STree.prefixL cs cs = true
-  | [], _ => rfl
-  | c :: cs, h => by
-      simp only [STree.wfL, Bool.and_eq_true] at h
-      simp [STree.prefixL, STree.prefixB_refl c h.1, STree.prefixL_refl cs h.2]
-end
 
 mutual
 /-- **the first operand is a prefix of the merged shape** (the result keeps its node types, key order and
